@@ -130,7 +130,8 @@ CHECKS["C10"] = {
             "every small frame + invalid tail, every large frame alone and paired; segmentations: whole, byte-at-a-time, every single cut, every pair of cuts, and ALL 2^(n-1) segmentations for n<=16 (20 for single frames; "
             "thorough 20/24); read buffers 1600 and 65536; oracle wire.FrameLen: after each delivered segment exactly the frames completed so far have been returned, byte-identical, in order, one per call, n>=1, "
             "an invalid start yields an error, and a cap on results detects zero-length loops. TCPAllocation.BindConnection on a scripted conn: 6 replies x 3 trailers x whole/byte-at-a-time/every single and double cut "
-            "(thorough triple): verdict independent of segmentation and trailing application bytes left unread. A class is (frame reference classes x segmentation kind x read buffer) or (reply x trailer x segmentation kind).",
+            "(thorough triple): verdict independent of segmentation and trailing application bytes left unread. A class is (frame reference classes x segmentation kind x read buffer) or (reply x trailer x segmentation kind). Every (stream, segmentation, buffer) case is also run with the two other legal io.Reader behaviours of the underlying connection: the final bytes returned together with io.EOF (crypto/tls before a close_notify) - no frame may be lost - "
+            "and 8 empty (0, nil) reads before every data read (pion/dtls empty records; short streams) - same frames, and the call stack must not grow with the number of empty reads.",
     "parts": [A("framer", "./checks/c10", "TestC10Framer", budget={"quick": 60, "thorough": 900}),
               A("bindreply", "./checks/c10", "TestC10BindReply", budget={"quick": 30, "thorough": 60})],
 }
@@ -196,11 +197,12 @@ CHECKS["C03"] = {
             "reference model before and after, 401 resp. 438 with NONCE and REALM where the statement names them, the fresh nonce of the last challenge is then accepted and the valid request succeeds; "
             "the same defects on Connect (never dialled) and ConnectionBind (the pending connection stays bindable by its owner) over a stream listener; a server without auth handler; a nonce minted at second offset {0,1,59} "
             "presented through the real server at ages 59 min .. 3 h (accepted up to 60 min, 438 from 61 min); nonce managers (NonceHash, ShortNonceHash with every hmacLen 2..32): mint at second offsets {0,1,59}, present at ages around 60 and 61 minutes, future-dated, other instance, all single-character mutations. "
-            "A class is (state, method, defect class) -> response.",
+            "A class is (state, method, defect class) -> response. Part unsigned: a correctly signed request of the owner extended AFTER its MESSAGE-INTEGRITY by attributes nobody signed (peer address, LIFETIME 0, channel number; with and without FINGERPRINT): the unsigned attributes must change nothing.",
     "parts": [A("server", "./checks/c03", "TestC03Server", budget={"quick": 60, "thorough": 600}),
               A("nonce", "./checks/c03", "TestC03Nonce", budget={"quick": 60, "thorough": 600}),
               A("expiry", "./checks/c03", "TestC03Expiry", budget={"quick": 60, "thorough": 600}),
               A("noauth", "./checks/c03", "TestC03NoAuth", nshards=1, budget={"quick": 60, "thorough": 60}),
+              A("unsigned", "./checks/c03", "TestC03Unsigned", nshards=1, budget={"quick": 60, "thorough": 60}),
               A("tcp", "./checks/c03", "TestC03TCP", nshards=2, budget={"quick": 60, "thorough": 60})],
 }
 
